@@ -1047,7 +1047,13 @@ def foreign_bytes(root, nsdecl):
             ElementTree.register_namespace(pfx, uri)
         except ValueError:
             return None
-    return ElementTree.tostring(root, encoding='utf-8')
+    out = ElementTree.tostring(root, encoding='utf-8')
+    # ElementTree declares only the namespaces in use; sarpy's readers insist on every prefix their class tables name
+    end = out.index(b'>')
+    if out[end - 1:end] == b'/':
+        end -= 1
+    extra = b''.join(f' xmlns:{pfx}="{uri}"'.encode() for pfx, uri in sorted(nsdecl.items()) if pfx and f'xmlns:{pfx}='.encode() not in out[:end])
+    return out[:end] + extra + out[end:]
 
 # ------------------------------------------------------------------------------------------------ classification of known defects
 
@@ -1308,11 +1314,18 @@ def run(tier):
         'outside': info['outside'], 'roots': info['roots'], 'import_failures': info['import_failures'],
         'constructors_with_extra_statements': info['init_extras'], 'writer_reader_tag_mismatch_rows': [list(map(str, m)) for m in info['mismatch_rows']],
         'changed': info['changed'],
+        'hand_written_classes_inside_the_model': {q: l for q, l in sorted(info['labels'].items()) if l not in ('rows', 'opaque')},
+        'constructs': {l: sum(1 for v in info['labels'].values() if v == l) for l in sorted(set(info['labels'].values()))},
+        'class_notes': {q: inf['notes'] for q, (k, inf) in sorted(info['construct'].items()) if k == 'rows' and inf.get('notes')},
+        'no_longer_modelled_as_expected': info['regressions'],
     }
     broken = chk.prove(['SarpyModel.Props.C05', 'SarpyModel.Gen.XmlTables', 'SarpyModel.Drivers'], 'SarpyModel.Props.C05',
                        'Sarpy.Props.C05', REQUIRED, gen_info)
     for m, why in info['import_failures']:
         broken.append(f'element module {m} does not import: {why}')
+    for r in info['regressions']:
+        # a hand-written method no longer matches the construct it was translated to: the theorems no longer speak about this class
+        broken.append(f"class {r['cls']} was inside the model as '{r['expected']}' and is now '{r['now']}': {str(r['why'])[:400]}")
 
     mc = ModelCodec(info)
     gen = Generator()
@@ -1329,6 +1342,10 @@ def run(tier):
     foreign_cands, fjobs = [], []
     t_budget = time.time()
     cases = plan(info, tier, rng)
+    for r in info['regressions']:
+        # widen the search on the classes whose translation broke
+        if r['cls'] in classes:
+            cases += [(r['cls'], m_, rng.getrandbits(48)) for m_ in ['full'] * 40 + ['random'] * 80]
     if tier == 'quick':
         egen = Generator(edge_strings=True)
         extra = [(q, 'random', rng.getrandbits(48)) for q in rng.sample(sorted(classes), 40)]
@@ -1563,7 +1580,10 @@ def run(tier):
         + stats.get('model_foreign_documents_compared', 0),
         'distinct_nontrivial': len(patterns),
         'rule': 'instances generated from the descriptors of every Serializable class of the element packages: all fields absent, all present, each field '
-                'alone, fields left out, random subsets; collections of 0-3 entries; floats from a pool of extremes (-0.0, denormals, 1e308, max, 2^53+1, '
+                'alone, fields left out, random subsets; collections of 0-4 entries (and the fixed sizes of the class); coefficient arrays of order 0..5 per '
+                'variable, all-zero / dense / sparse patterns with -0.0, denormals and 1e308; parameter names never in sorted order; edited documents (Coef '
+                'children permuted, zero coefficients dropped, index attributes shuffled, parameter names repeated / reversed, derived elements changed or '
+                'dropped, size attributes off by one or two, arrays longer / shorter than their bounds); floats from a pool of extremes (-0.0, denormals, 1e308, max, 2^53+1, '
                 'halfway cases, inf, nan) and random bit patterns; integers to 10^30; strings long (5000), non-ASCII, XML-special, multi-line; every enum value '
                 'drawn from the descriptor; dates 0001..9999; a separate stream with empty and whitespace-edged strings. distinct = (class, set of present '
                 'fields) pairs that passed the oracle with at least one field present',
@@ -1586,8 +1606,17 @@ def run(tier):
         'fidelity is what the node-by-node comparison of the model serialisation with the real XML checks',
         'primitive text codecs (float <-> "0.17G"/"0.17E"/str, int, bool, datetime64, enum strings) are an abstract parameter of the theorems with an explicit '
         'round-trip hypothesis; that hypothesis is tested bit for bit on the implementation, not proved',
-        'classes outside the generic machinery (hand-written to_node/from_node/to_dict/from_dict/copy, property-backed fields, float arrays; listed under '
-        'translator.outside) are black boxes in the theorems and are covered by the oracle only',
+        'hand-written methods enter the model through AST templates (translate/tables_xml.py: coefficient arrays, wrapped parameter collections, read-only and '
+        'string-backed properties, legacy-dispatching from_node, copy with a private attribute): a method that deviates from its template takes the class out of '
+        'the model, which is reported as a broken obligation against the committed list translate/xml_constructs_expected.json; the templates themselves and the '
+        'transcription of base.py into Spec.XmlFmt are validated by the node-by-node differential (own documents and edited documents), not proved',
+        'classes that stay outside (translator.outside, with the reason for each) are black boxes in the theorems and are covered by the oracle only',
+        'legacy branches of from_node (SICD < 1.0 MatchInfo / Radiometric / WgtType text form, SIDD version dispatch) are outside the model: the claim is for documents '
+        'that do not take them',
+        'reader leniencies not modelled: int() accepts signs, blanks and leading zeros in size / index / exponent attributes, a negative exponent wraps around '
+        '(numpy indexing); such documents are not generated',
+        'a failure inside a nested structure is swallowed by SerializableDescriptor (the field becomes None) where the model refuses the whole document: documents '
+        'that make a reader refuse are generated at the top level only',
         'an empty collection and an absent one have the same XML (nothing is written): the XML comparison identifies them; the dict and copy comparisons do not',
         'canonicalising descriptors (UnitVectorDescriptor, FloatModularDescriptor) are compared to rounding error (4e-15 relative / 1e-9 of the modulus); unit-vector '
         'inputs are drawn with moderate magnitudes (1e-3..1e6)',
